@@ -92,22 +92,19 @@ func enclosingBlock(stack []ast.Node) ([]ast.Stmt, int) {
 // isZeroTest matches `x != 0` / `x == 0` (also x.Sign() != 0, x.BitLen() != 0)
 // for the given variable key and returns the operator.
 func (p *Prog) isZeroTest(e ast.Expr, key string) (token.Token, bool) {
-	be, ok := ast.Unparen(e).(*ast.BinaryExpr)
-	if !ok || (be.Op != token.NEQ && be.Op != token.EQL) {
+	x, op, k, ok := p.normCmp(e)
+	if !ok || k.Sign() != 0 || (op != token.NEQ && op != token.EQL) {
 		return 0, false
 	}
-	if v, ok := p.constInt64(be.Y); !ok || v != 0 {
-		return 0, false
-	}
-	x := ast.Unparen(be.X)
 	if p.exprKey(x) == key {
-		return be.Op, true
+		return op, true
 	}
 	if call, ok := x.(*ast.CallExpr); ok {
 		cn := p.calleeName(call)
 		if cn == "math/big.Int.Sign" || cn == "math/big.Int.BitLen" {
 			if sel, ok := call.Fun.(*ast.SelectorExpr); ok && p.exprKey(sel.X) == key {
-				return be.Op, true
+				// BitLen is unsigned in meaning (>= 0), Sign is not: BitLen() > 0 is a complete test
+				return op, true
 			}
 		}
 	}
@@ -361,6 +358,18 @@ func ruleStickyMonotone(c *Ctx) {
 					okA = isC && v == -1
 				case (as.Tok == token.ASSIGN || as.Tok == token.DEFINE) && len(as.Rhs) == len(as.Lhs):
 					okA = p.constOf(as.Rhs[i]) != nil
+					// negation written out: trunc = -trunc, trunc = trunc * -1
+					if ue, ok := ast.Unparen(as.Rhs[i]).(*ast.UnaryExpr); ok && ue.Op == token.SUB && p.exprKey(ue.X) == k {
+						okA = true
+					}
+					if be, ok := ast.Unparen(as.Rhs[i]).(*ast.BinaryExpr); ok && be.Op == token.MUL {
+						if v, isC := p.constInt64(be.Y); isC && v == -1 && p.exprKey(be.X) == k {
+							okA = true
+						}
+						if v, isC := p.constInt64(be.X); isC && v == -1 && p.exprKey(be.Y) == k {
+							okA = true
+						}
+					}
 					if conv, ok := ast.Unparen(as.Rhs[i]).(*ast.CallExpr); ok && !okA {
 						if tv, ok := p.Info.Types[conv.Fun]; ok && tv.IsType() && len(conv.Args) == 1 && p.constOf(conv.Args[0]) != nil {
 							okA = true
@@ -672,6 +681,11 @@ func rulePolarity(c *Ctx) {
 					}
 					if ue, ok := as.Rhs[0].(*ast.UnaryExpr); ok && ue.Op == token.NOT && p.exprKey(ue.X) == p.exprKey(as.Lhs[0]) {
 						hasNegSign = true
+					}
+					if ue, ok := as.Rhs[0].(*ast.UnaryExpr); ok && ue.Op == token.SUB && p.exprKey(ue.X) == p.exprKey(as.Lhs[0]) {
+						if _, isS := sv[p.exprKey(as.Lhs[0])]; isS {
+							hasNegSticky = true
+						}
 					}
 				}
 			}
